@@ -101,17 +101,7 @@ theorem equalBatchFinish_F {not : Bool} {chunk : List Pair}
     have : chunk = [] := by cases chunk <;> simp_all
     subst this
     cases h; cases ha; exact .nil
-  · split at h
-    · cases h
-    · split at h
-      · cases h
-      · rename_i k _
-        refine (zipRows_forall₂ ha hb h).imp ?_
-        rintro y kv ⟨a, b, pa, pb, hk⟩
-        refine ⟨a, b, pa, pb, ?_⟩
-        cases he : equalBatchRow k a b with
-        | error e => simp [he, boolV, Except.map] at hk
-        | ok cc => rw [equalBatchRow_ok he]; rw [he] at hk; exact hk
+  · exact zipRows_forall₂ ha hb h
 
 theorem leaf_rows {e : Expr} {c : Ctx} {f : Pair → Value} (chunk : List Pair)
     (hr : ∀ kv, exec e kv c = (.ok (f kv), c)) : RowsOk e c (chunk.map f) chunk :=
